@@ -253,6 +253,11 @@ def execute(case):
                     if idx == at and mode in ("raise", "cancel"):
                         observe(pattern)
                         fail("cb_raise" if mode == "raise" else "cb_cancel")
+                    if style == 4:
+                        # "rotate": hand back the Note object that currently lives one line below
+                        sl = (line + 1) % lines
+                        supplied[(line, track)] = pre[sl][track]
+                        return pattern.data[sl][track]
                     vals = _cell_values(seed, line, track, w.nmods)
                     supplied[(line, track)] = vals
                     return _make_note(style, vals, pattern, line, track)
@@ -278,10 +283,15 @@ def execute(case):
                         line, track = divmod(c, tracks)
                         if idx == at and mode in ("raise", "cancel", "mutate_raise"):
                             if mode == "mutate_raise":
-                                # discouraged but allowed: edit the working copy in place
+                                # discouraged but allowed: edit the working copy in place - but
+                                # never a Note that currently lives in the pattern (a moved note
+                                # that this same callable put into the working copy earlier)
+                                live = {id(x) for row in pattern.data for x in row}
                                 for ll in range(lines):
                                     for tt in range(tracks):
                                         nn = new[ll][tt]
+                                        if id(nn) in live:
+                                            continue
                                         nn.vel = (nn.vel + 1) % 130
                                         nn.ctl = nn.ctl ^ 0x0101
                                 new[0][0] = Note(note=1, vel=1)
@@ -289,6 +299,11 @@ def execute(case):
                                 fail("cb_mutate_then_raise")
                             observe(pattern)
                             fail("cb_raise" if mode == "raise" else "cb_cancel")
+                        if style == 4 and not plan.get("dup"):
+                            sl = (line + 1) % lines
+                            supplied[(line, track)] = pre[sl][track]
+                            yield line, track, pattern.data[sl][track]
+                            continue
                         vals = _cell_values(seed + (1 if idx >= first_len else 0), line, track, w.nmods)
                         supplied[(line, track)] = vals
                         yield line, track, _make_note(style, vals, pattern, line, track)
@@ -371,8 +386,16 @@ def sweep_cases(lines, tracks, attached, dense=128):
         idxs = sorted({0, 1, 2, ncells // 3, ncells // 2, ncells - 2, ncells - 1})
     setup = {"k": "setup", "lines": lines, "tracks": tracks, "attached": attached, "nmods": 3, "fill": 7}
     for setter in ("fn", "gen"):
-        for style in (0, 1, 2, 3):
+        for style in (0, 1, 2, 3, 4):
             yield [setup, {"k": "bulk", "setter": setter, "plan": {"mode": "complete"}, "seed": 11, "style": style}]
+        # a rotation (existing Note objects moved to other cells), then every kind of follow-up edit
+        rot = {"k": "bulk", "setter": setter, "plan": {"mode": "complete"}, "seed": 41, "style": 4}
+        for setter2 in ("fn", "gen"):
+            for at in sorted({0, ncells // 2, ncells - 1}):
+                yield [setup, rot, {"k": "bulk", "setter": setter2, "plan": {"mode": "raise", "at": at}, "seed": 43, "style": 0}]
+                yield [setup, rot, {"k": "bulk", "setter": setter2, "plan": {"mode": "cancel", "at": at}, "seed": 43, "style": 4}]
+            yield [setup, rot, {"k": "bulk", "setter": "gen", "plan": {"mode": "complete", "subset": max(1, ncells // 2), "shuffle": True}, "seed": 47, "style": 0}, rot]
+            yield [setup, rot, rot, {"k": "bulk", "setter": setter2, "plan": {"mode": "complete"}, "seed": 53, "style": 2}]
         modes = ("raise", "cancel") if setter == "fn" else ("raise", "cancel", "mutate_raise")
         for mode in modes:
             for at in idxs:
@@ -417,7 +440,7 @@ def generate(seed, i, tier="quick"):
                 plan["at"] = r.randrange(max(plan["subset"], 1))
             if r.random() < 0.2:
                 plan["dup"] = True
-        ops.append({"k": "bulk", "setter": setter, "plan": plan, "seed": r.randrange(1 << 30), "style": r.randrange(4), "observe": r.random() < 0.8})
+        ops.append({"k": "bulk", "setter": setter, "plan": plan, "seed": r.randrange(1 << 30), "style": r.randrange(5), "observe": r.random() < 0.8})
     return {"property": PROPERTY, "world": "bulk", "ops": ops}
 
 
